@@ -42,6 +42,9 @@ type C18Case struct {
 	// Hangup (client side, kernel socket): the peer sends its bytes and closes at once; the client keeps writing raw
 	// data until a Write fails for good, and only then reads. What the peer sent before it hung up is still there.
 	Hangup bool `json:"hangup,omitempty"`
+	// Duplex (client side): the raw reads run in a goroutine of their own and are already waiting when the main
+	// goroutine writes Back; the peer sends its tail only after it has received Back (one reader, one writer)
+	Duplex bool `json:"duplex,omitempty"`
 }
 
 // checkReads runs the cursor model over the results; the last result is the drain.
@@ -283,6 +286,16 @@ func execC18Client(c C18Case, bound time.Duration) (bool, error) {
 			gotBack <- snapshot()
 			return
 		}
+		if c.Duplex && len(c.Back) > 0 {
+			// reply first; the tail follows once the client's raw write has arrived
+			srv.SetWriteDeadline(time.Now().Add(bound))
+			if _, err := srv.Write(stream[:len(reply)+1]); err != nil {
+				gotBack <- snapshot()
+				return
+			}
+			stream = stream[len(reply)+1:]
+			waitFor(func(b []byte) bool { return len(b)-(bytes.IndexByte(b, 0)+1) >= len(c.Back) })
+		}
 		for _, seg := range Segments(stream, c.Cuts) {
 			srv.SetWriteDeadline(time.Now().Add(bound))
 			if _, err := srv.Write(seg); err != nil {
@@ -322,12 +335,25 @@ func execC18Client(c C18Case, bound time.Duration) (bool, error) {
 				break
 			}
 		}
-	} else if len(c.Back) > 0 {
+	} else if len(c.Back) > 0 && !c.Duplex {
 		if _, werr := rwc.Write(ctx, c.Back); werr != nil {
 			return false, fmt.Errorf("client side: raw Write on the upgraded connection failed: %v", werr)
 		}
 	}
 	var res []OpResult
+	writeDone := make(chan error, 1)
+	if c.Duplex && len(c.Back) > 0 && !c.Hangup {
+		go func() {
+			time.Sleep(2 * time.Millisecond) // the first read below is waiting by now
+			n, werr := rwc.Write(ctx, c.Back)
+			if werr == nil && n != len(c.Back) {
+				werr = fmt.Errorf("Write returned %d, want %d", n, len(c.Back))
+			}
+			writeDone <- werr
+		}()
+	} else {
+		writeDone <- nil
+	}
 	for _, op := range c.Ops {
 		var r OpResult
 		switch op.Kind {
@@ -357,8 +383,19 @@ func execC18Client(c C18Case, bound time.Duration) (bool, error) {
 		}
 	}
 	res = append(res, drain)
+	select {
+	case werr := <-writeDone:
+		if werr != nil {
+			return false, fmt.Errorf("client side: a raw Write issued while another goroutine was waiting in a raw read failed: %v", werr)
+		}
+	case <-time.After(bound):
+		return false, fmt.Errorf("client side: a raw Write issued while another goroutine was waiting in a raw read did not return within %v", bound)
+	}
 	d, mixed := checkReads(c.Tail, c.Ops, res)
 	if d != "" {
+		if c.Duplex {
+			return mixed, fmt.Errorf("client side (reads waiting in one goroutine while another wrote %d bytes): %s", len(c.Back), d)
+		}
 		if c.Hangup {
 			return mixed, fmt.Errorf("client side (the peer sent its bytes and hung up, a raw Write failed, then the client read): %s", d)
 		}
@@ -454,6 +491,9 @@ func genC18(t *rapid.T) C18Case {
 	if c.Side == "client" && c.Transport == "unix" && rapid.IntRange(0, 2).Draw(t, "hangup") == 0 {
 		c.Hangup = true
 	}
+	if c.Side == "client" && !c.Hangup && len(c.Back) > 0 && len(c.Tail) > 0 && rapid.IntRange(0, 1).Draw(t, "duplex") == 0 {
+		c.Duplex = true
+	}
 	return c
 }
 
@@ -484,6 +524,9 @@ func checkC18(c C18Case, st *Stats) error {
 	}
 	if c.Hangup {
 		labels = append(labels, "peer-hung-up+write-failed-before-reading")
+	}
+	if c.Duplex {
+		labels = append(labels, "raw-write-while-raw-read-waits")
 	}
 	st.Case(HashOf(c), mixed && len(c.Tail) > 0 && (coalesced || len(c.Cuts) > 0 && c.Cuts[0] > 64), func() interface{} { return c }, labels...)
 	return err
@@ -524,6 +567,11 @@ func TestC18Enum(t *testing.T) {
 					cases = append(cases, C18Case{Side: side, Transport: tr, Tail: tail, Cuts: cuts, Ops: s, Back: Blob("raw-back\x00x")})
 				}
 			}
+		}
+	}
+	for _, tr := range []string{"pipe", "unix"} {
+		for _, s := range seqs {
+			cases = append(cases, C18Case{Side: "client", Transport: tr, Tail: tail, Cuts: []int{9}, Ops: s, Back: Blob("raw-back\x00x"), Duplex: true})
 		}
 	}
 	long := append(append([]byte(nil), tail...), bytes.Repeat([]byte("0123456789abcdef"), 1024)...) // beyond the read buffer: part of it is still in the kernel
